@@ -215,6 +215,9 @@ func Random(g *gen.G, cur *sbom.NodeList, kinds []Kind, sh gen.Shape) *Op {
 		o.Node = g.Node(id, sh.Richness)
 		o.At = anyID()
 		o.T = g.EdgeType()
+		if g.Chance(0.12) {
+			o.Node.Id = o.At // a node related at itself
+		}
 	case RelateList:
 		o.At = anyID()
 		o.T = g.EdgeType()
